@@ -349,7 +349,66 @@ func init() {
 				}
 			}
 		}
-		out.put(N{"done": true, "runs": runs, "cases": len(cases)})
+		// arguments of every count: the main function's parameter list (0..3 fixed parameters, with and without a
+		// variadic one) against 0..5 arguments, bound by Run before the loop starts; and the same lists for a script
+		// function the host invokes
+		shapes := 0
+		for fixed := 0; fixed <= 3; fixed++ {
+			for _, variadic := range []bool{false, true} {
+				var ps []string
+				for i := 0; i < fixed; i++ {
+					ps = append(ps, fmt.Sprintf("p%d", i))
+				}
+				if variadic {
+					ps = append(ps, "...rest")
+				}
+				if len(ps) == 0 {
+					continue
+				}
+				list := strings.Join(ps, ", ")
+				mainBC, err1 := ugo.Compile([]byte("param ("+list+")\nreturn 1"), ugo.CompilerOptions{})
+				fnBC, err2 := ugo.Compile([]byte("return func("+list+") { return 1 }"), ugo.CompilerOptions{})
+				if err1 != nil || err2 != nil {
+					out.put(N{"case": c06Case{Kind: "params", Ctx: list}, "depth": 0, "what": fmt.Sprint("harness script does not compile: ", err1, err2), "kind": "harness"})
+					continue
+				}
+				for nargs := 0; nargs <= 5; nargs++ {
+					var as []ugo.Object
+					for i := 0; i < nargs; i++ {
+						as = append(as, ugo.Int(i))
+					}
+					for _, how := range []string{"main", "invoke", "invoke-pooled"} {
+						shapes++
+						runs++
+						func() {
+							defer func() {
+								if p := recover(); p != nil {
+									nviol++
+									out.put(N{"case": c06Case{Kind: "params", Ctx: how, Depth: list}, "depth": nargs, "args": nargs, "kind": "violation",
+										"what": fmt.Sprintf("parameter list (%s) with %d arguments (%s): panic escaped although recovery is on: %v", list, nargs, how, p)})
+								}
+							}()
+							if how == "main" {
+								ugo.NewVM(mainBC).SetRecover(true).Run(nil, as...)
+								return
+							}
+							vm := ugo.NewVM(fnBC).SetRecover(true)
+							f, err := vm.Run(nil)
+							if err != nil || f == nil {
+								return
+							}
+							inv := ugo.NewInvoker(vm, f)
+							if how == "invoke-pooled" {
+								inv.Acquire()
+								defer inv.Release()
+							}
+							inv.Invoke(as...)
+						}()
+					}
+				}
+			}
+		}
+		out.put(N{"done": true, "runs": runs, "cases": len(cases), "paramshapes": shapes})
 		return nil
 	}
 }
